@@ -44,7 +44,7 @@ from . import common as C
 
 BASES = "ACGT"
 ALL_FEATURES = frozenset(
-    {"indels", "clips", "mates", "flags", "lowmapq", "multi_rg", "nodepth", "lowqual"}
+    {"indels", "clips", "mates", "flags", "lowmapq", "multi_rg", "nodepth", "lowqual", "nodepth_all"}
 )
 
 FLAG_PAIRED = 0x1
@@ -826,6 +826,10 @@ def make_dataset(rng, outdir, n_samples=3, n_loci=3, ploidies=(2, 4), max_snvs=5
     if "nodepth" in features:
         li = rng.choice(with_snvs) if with_snvs else rng.randrange(len(loci))
         nodepth.append((rng.choice(samples), loci[li].name))
+    if "nodepth_all" in features and len(loci) > 1:
+        # one locus (with SNVs, if any has) that NO sample has a read over: DP = 0 for every sample, not missing
+        li = rng.choice(with_snvs) if with_snvs else rng.randrange(len(loci))
+        nodepth = [x for x in nodepth if x[1] != loci[li].name] + [(s_, loci[li].name) for s_ in samples]
 
     # ---- reads
     maker = _ReadMaker(rng, contigs, loci, features, error_rate, read_len)
